@@ -1,5 +1,5 @@
 use super::field_utils::parse_party_identifier;
-use super::swift_utils::{parse_bic, parse_max_length};
+use super::swift_utils::{parse_bic, parse_max_length, parse_swift_chars};
 use crate::errors::ParseError;
 use crate::traits::SwiftField;
 use serde::{Deserialize, Serialize};
@@ -23,7 +23,7 @@ impl SwiftField for Field53A {
     where
         Self: Sized,
     {
-        let lines: Vec<&str> = input.split('\n').collect();
+        let lines = super::field_utils::content_lines(input, "Field 53A")?;
 
         if lines.is_empty() {
             return Err(ParseError::InvalidFormat {
@@ -93,7 +93,7 @@ impl SwiftField for Field53B {
             });
         }
 
-        let lines: Vec<&str> = input.split('\n').collect();
+        let lines = super::field_utils::content_lines(input, "Field 53B")?;
         let mut party_identifier = None;
         let mut location = None;
 
@@ -169,7 +169,7 @@ impl SwiftField for Field53D {
     where
         Self: Sized,
     {
-        let mut lines = input.split('\n').collect::<Vec<_>>();
+        let mut lines = super::field_utils::content_lines(input, "Field 53D")?;
 
         if lines.is_empty() {
             return Err(ParseError::InvalidFormat {
@@ -200,13 +200,19 @@ impl SwiftField for Field53D {
         let mut name_and_address = Vec::new();
         for (i, line) in lines.iter().enumerate() {
             if i >= 4 {
-                break;
+                return Err(ParseError::InvalidFormat {
+                    message: format!(
+                        "Field 53D cannot have more than 4 name and address lines, found {}",
+                        lines.len()
+                    ),
+                });
             }
             if line.len() > 35 {
                 return Err(ParseError::InvalidFormat {
                     message: format!("Field 53D line {} exceeds 35 characters", i + 1),
                 });
             }
+            parse_swift_chars(line, &format!("Field 53D line {}", i + 1))?;
             name_and_address.push(line.to_string());
         }
 
@@ -259,7 +265,7 @@ impl SwiftField for Field53SenderCorrespondent {
         // B: Has optional party identifier and/or location
         // D: Has party identifier and/or multiple lines of name/address
 
-        let lines: Vec<&str> = input.split('\n').collect();
+        let lines = super::field_utils::content_lines(input, "Field 53SenderCorrespondent")?;
         let last_line = lines.last().unwrap_or(&"");
 
         // Check if last line looks like a BIC code
